@@ -3,6 +3,7 @@ package host
 import (
 	"fmt"
 	"math/rand"
+	"os/exec"
 	"strings"
 	"sync"
 	"sync/atomic"
@@ -70,6 +71,40 @@ func TestC20(t *testing.T) {
 			e.Ret("h", "round", o)
 		}
 		var stopped atomic.Bool
+		if p.Kind == "managed" {
+			// process-wide state: managed clients being created while CleanupClients runs (own host child:
+			// CleanupClients sets the package's Killed flag for good)
+			var wg sync.WaitGroup
+			for g := 0; g < p.G; g++ {
+				wg.Add(1)
+				go func() {
+					defer wg.Done()
+					for i := 0; i < 200*p.Ops && !stopped.Load(); i++ {
+						oc.do("NewClient(managed)", func() error {
+							cfg := baseClientConfig()
+							cfg.Managed = true
+							cfg.Cmd = exec.Command("/nonexistent/never-started")
+							hostSetFor(cfg, "netrpc")
+							cl := plugin.NewClient(cfg)
+							_ = cl.Exited()
+							return nil
+						})
+					}
+				}()
+			}
+			for k := 0; k < 4; k++ {
+				time.Sleep(time.Duration(1+p.Seed%5) * time.Millisecond)
+				oc.do("CleanupClients", func() error { plugin.CleanupClients(); return nil })
+			}
+			stopped.Store(true)
+			ok, _, dump := within(60*time.Second, wg.Wait)
+			o.Returned = ok
+			if !ok {
+				o.Dump = trunc(dump, 6000)
+			}
+			done()
+			return
+		}
 		if !strings.HasPrefix(p.Kind, "client-") {
 			names := []string{"p0", "p1", "p2"}
 			pr, err := newPair(t, p.Kind, names...)
